@@ -238,6 +238,12 @@ func checkC09(c *Ctx) *orch.Outcome {
 				rsets = append(rsets, []int{g + rng.Intn(c09Window+2)})
 			}
 			rsets = append(rsets, []int{g + 1, g + 5})
+			// stop right before the unrated block(s), and right before the block before them: what was waiting
+			// at the stop has to be found again although the first blocks after the restart have no rates
+			if g >= 1 {
+				rsets = append(rsets, []int{g - 1})
+			}
+			rsets = append(rsets, []int{g})
 			add(c.Seed*100+int64(gi), []int{g}, rsets, c09Window, span)
 		}
 		add(c.Seed*100+50, []int{2, 3, 9}, [][]int{{4}, {10}, {12}, {5, 11}, everyBlock(span)}, c09Window, span)
